@@ -67,9 +67,9 @@ def corpus():
         if c["kind"] == "rules":
             out.append({"sdl": c["sdl"], "text": c["text"], "base_text": c["text"], "variant": "base", "origin": "witness"})
     # seeded C06-a: the same document with the two exclusive inline fragments swapped
-    out.append({"sdl": c05.WITNESS_SDL, "text": c05._W[-1], "base_text": c05._W[-2], "variant": "perm_sels",
+    out.append({"sdl": c05.WITNESS_SDL, "text": c05._EXCL[1], "base_text": c05._EXCL[0], "variant": "perm_sels",
                 "origin": "witness"})
-    out.append({"sdl": c05.WITNESS_SDL, "text": c05._W[-2], "base_text": c05._W[-1], "variant": "perm_sels",
+    out.append({"sdl": c05.WITNESS_SDL, "text": c05._EXCL[0], "base_text": c05._EXCL[1], "variant": "perm_sels",
                 "origin": "witness"})
     # seeded C05-b / C06-b: the two orders of each variable-position form are variants of each other
     forms = dict((n, gen_valid.render({"defs": defs}, "plain"))
@@ -80,6 +80,14 @@ def corpus():
                           ("shared-3-ops-a", "shared-3-ops-b", "perm_defs"), ("shared-3-ops-a", "shared-3-ops-c", "perm_defs")):
         out.append({"sdl": c05.WITNESS_SDL, "text": forms[b], "base_text": forms[a], "variant": variant, "origin": "witness"})
         out.append({"sdl": c05.WITNESS_SDL, "text": forms[a], "base_text": forms[b], "variant": variant, "origin": "witness"})
+    # seeded C06-c: consistent renaming of fragments / operations / variables of the collision forms
+    for _n, lab, defs in c05._NS:
+        tree = {"defs": defs}
+        c = {"sdl": c05.WITNESS_SDL, "text": gen_valid.render(gen_valid.rename(__import__("random").Random(3), tree), "plain"),
+             "base_text": gen_valid.render(tree, "plain"), "variant": "rename", "origin": "witness"}
+        if lab:
+            c["label"] = lab
+        out.append(c)
     chain = c05._CHAIN
     head = "query Q($v: Int) { anchor(req: 1, inn: {v: 1}, lnn: [1]) { ...Ta } }"
     base = head + " " + " ".join(chain)
@@ -92,7 +100,7 @@ def corpus():
 def generate(rng, tier):
     quick = tier == "quick"
     n_schemas = 3 if quick else 10
-    n_valid = 9 if quick else 20
+    n_valid = 7 if quick else 20
     cases = []
     for _ in range(n_schemas):
         sdl = gen_valid.gen_schema(rng)
